@@ -281,7 +281,7 @@ def analyse(ctx):
     never = set(RP.find_parser(ctx)[2])
     for n_, b_ in ctx.facts.bodies.items():
         rs = b_["locals"][0]["s"]
-        if "Result<(bool, bool)" in rs:
+        if n_ in cond_fns(ctx):
             never.add(n_)
         if rs == "bool" and b_["arg_count"] == 2 and all(b_["locals"][i]["s"].endswith("[u8]") for i in (1, 2)):
             never.add(n_)
@@ -432,12 +432,70 @@ def dyn_entity_calls(r):
     return events(r, lambda e: (e["callee"].get("path") or "").startswith("Entity::"))
 
 
+def cond_fns(ctx):
+    """the conditional-header function(s): crate-local fn taking (the entity's ETag, the request headers, the modification
+    time) and returning Result<decision, message>; the decision is the pair (precondition failed, not modified) or a
+    crate-local enum with three field-less variants"""
+    cache = ctx.__dict__.setdefault("_cond_fns", None)
+    if cache is not None:
+        return cache
+    out = {}
+    for n, b in ctx.facts.bodies.items():
+        if b["kind"] not in ("fn", "assocfn"):
+            continue
+        tys = [b["locals"][i]["s"] for i in range(1, b["arg_count"] + 1)]
+        rs = b["locals"][0]["s"]
+        if not (any("HeaderMap" in x for x in tys) and any("SystemTime" in x for x in tys) and any("HeaderValue" in x for x in tys)):
+            continue
+        if not rs.startswith("std::result::Result<"):
+            continue
+        inner = rs[len("std::result::Result<"):].rsplit(", ", 1)[0]
+        if inner == "(bool, bool)":
+            out[n] = ("pair", None)
+        else:
+            a = ctx.facts.adts.get(inner.split("<")[0])
+            if a and a.get("local") and a["kind"] == "enum" and len(a["variants"]) == 3 and all(not v["fields"] for v in a["variants"]):
+                out[n] = ("enum", a["path"])
+    ctx.__dict__["_cond_fns"] = out
+    return out
+
+
 def cond_fn_event(ctx, r):
-    """the call to the conditional-header function: crate-local callee returning Result<(bool, bool), _>"""
+    """the call to the conditional-header function"""
+    cf = cond_fns(ctx)
     for e in r.o.events:
-        if e["k"] == "call" and e["callee"].get("res_local") and "Result<(bool, bool)" in e["dest"]["ty"]["s"]:
+        if e["k"] == "call" and e["callee"].get("res_path") in cf:
             return e
     return None
+
+
+def cond_decisions(ctx, M):
+    """for an enum-valued conditional function: which variant means 412 / 304 / proceed, read off what `serve` does with it
+    (the variant all of whose rows answer 412, resp. 304; the remaining one)"""
+    if "cond_decisions" in M:
+        return M["cond_decisions"]
+    by = {}
+    for r in ok_rows(M):
+        e = cond_fn_event(ctx, r)
+        if e is None or cond_fns(ctx).get(e["callee"].get("res_path"), ("pair",))[0] != "enum":
+            continue
+        res = e.get("result")
+        if r.o.cons.variant_of(res) != "Ok":
+            continue
+        v = r.o.cons.variant_of(("payload", res, "Ok", "0"))
+        by.setdefault(v, set()).add(r.status)
+    d = {}
+    for v, sts in by.items():
+        if v is None:
+            continue
+        if sts == {412}:
+            d[v] = "412"
+        elif sts == {304}:
+            d[v] = "304"
+        else:
+            d[v] = "proceed"
+    M["cond_decisions"] = d
+    return d
 
 
 def parser_event(ctx, r):
@@ -459,6 +517,12 @@ def cond_state(ctx, r):
     if v == "Err":
         return ("err", None, None)
     tup = ("payload", res, "Ok", "0")
+    if cond_fns(ctx).get(e["callee"].get("res_path"), ("pair",))[0] == "enum":
+        M = getattr(ctx, "_serve_model", None)
+        dec = cond_decisions(ctx, M).get(r.o.cons.variant_of(tup)) if M else None
+        if dec is None:
+            return ("ok", None, None)
+        return ("ok", int(dec == "412"), int(dec == "304"))
     pf = r.o.cons.known.get(("field", tup, "0"))
     nm = r.o.cons.known.get(("field", tup, "1"))
     return ("ok", pf, nm)
